@@ -1009,6 +1009,14 @@ std::ostream& expression_t::print_bound_type(std::ostream& os, expression_t e) c
     return os;
 }
 
+/** Prints "; N" for an explicit number of runs of an SMC query, nothing if it was left out (encoded as -1). */
+static std::ostream& print_number_of_runs(std::ostream& os, const expression_t& runs)
+{
+    if (runs.get_kind() != CONSTANT || runs.get_value() >= 0)
+        runs.print(os << "; ", false);
+    return os;
+}
+
 static const char* get_builtin_fun_name(kind_t kind)
 {
     // the order must match declarations in include/utap/common.h
@@ -1112,29 +1120,39 @@ std::ostream& expression_t::print(std::ostream& os, bool old) const
     int nb;
 
     switch (data->kind) {
+    // The SMC queries below store: 0 = number of runs (-1 if not given), 1 = bound type, 2 = bound, ...
+    // (see ExpressionBuilder::expr_proba_* and the corresponding clauses of TypeChecker::checkExpression).
     case PROBA_MIN_BOX: flag = true; [[fallthrough]];
-    case PROBA_MIN_DIAMOND:
+    case PROBA_MIN_DIAMOND:  // 3 = predicate, 4 = probability bound
         os << "Pr[";
-        print_bound_type(os, get(0));
-        get(1).print(os, old);
+        print_bound_type(os, get(1));
+        get(2).print(os, old);
+        print_number_of_runs(os, get(0));
         os << (flag ? "]([] " : "](<> ");
-        get(2).print(os, old) << ") >= " << get(3).get_double_value();
+        get(3).print(os, old) << ") >= " << get(4).get_double_value();
         break;
 
     case PROBA_BOX: flag = true; [[fallthrough]];
-    case PROBA_DIAMOND:
+    case PROBA_DIAMOND:  // 3 = predicate, 4 = until condition (true unless written as "p U q")
         os << "Pr[";
-        print_bound_type(os, get(0));
-        get(1).print(os, old) << (flag ? "]([] " : "](<> ");
-        get(2).print(os, old) << ")";
+        print_bound_type(os, get(1));
+        get(2).print(os, old);
+        print_number_of_runs(os, get(0));
+        if (!flag && !get(4).is_true()) {
+            get(3).print(os << "](", old) << " U ";
+            get(4).print(os, old) << ")";
+        } else {
+            get(3).print(os << (flag ? "]([] " : "](<> "), old) << ")";
+        }
         break;
 
-    case PROBA_EXP:
+    case PROBA_EXP:  // 3 = aggregation (0 = min, 1 = max), 4 = monitored expression
         os << "E[";
-        print_bound_type(os, get(0));
-        get(1).print(os, old) << "; ";
-        get(2).print(os, old) << "] (" << (get(4).get_value() ? "max: " : "min: ");
-        get(3).print(os, old) << ")";
+        print_bound_type(os, get(1));
+        get(2).print(os, old);
+        print_number_of_runs(os, get(0));
+        os << "] (" << (get(3).get_value() ? "max: " : "min: ");
+        get(4).print(os, old) << ")";
         break;
 
     case PROBA_CMP:
